@@ -28,6 +28,8 @@ pub enum CertKind {
     /// adversary's certificate with the victim's key spliced in and re-signed by the adversary
     SplicedResigned,
     Ecdsa,
+    /// validly self-signed by the adversary, with the victim's key encoded inside the common name
+    KeyShapedName,
     Expired,
     NotYetValid,
     WrongName,
@@ -60,6 +62,7 @@ fn build_cert(c: &VerifierCase) -> Vec<u8> {
         CertKind::SignedByOther => adv::signed_by_other(&v, &a, &names),
         CertKind::SplicedResigned => adv::spki_spliced_resigned(&adv::ed_public(&v), &a, &names),
         CertKind::Ecdsa => adv::ecdsa_self_signed(&names).0,
+        CertKind::KeyShapedName => adv::key_shaped_name(&adv::ed_public(&v), &a, &names),
         CertKind::Expired => adv::self_signed(&v, &names, Validity::Expired),
         CertKind::NotYetValid => adv::self_signed(&v, &names, Validity::NotYetValid),
         CertKind::WrongName => adv::self_signed(&v, &["othernet".to_string()], Validity::Valid),
@@ -175,6 +178,7 @@ impl Part for Verifiers {
             2 => Just(CertKind::SignedByOther),
             2 => Just(CertKind::SplicedResigned),
             1 => Just(CertKind::Ecdsa),
+            2 => Just(CertKind::KeyShapedName),
             1 => Just(CertKind::Expired),
             1 => Just(CertKind::NotYetValid),
             1 => Just(CertKind::WrongName),
@@ -349,6 +353,8 @@ pub enum Chain {
     SplicedX,
     /// X's key as subject, issued and signed by Z
     XSignedByZ,
+    /// Z's own valid certificate whose common name contains the encoding of X's key
+    OwnWithXShapedName,
     Ecdsa,
     ExpiredOwn,
     /// X's certificate with one byte replaced
@@ -424,6 +430,7 @@ pub fn handshake_case(c: &HsCase, obs: &mut Obs) -> Result<(), Fail> {
             Chain::XThenOwn => vec![x_cert.clone(), own.chain[0].clone()],
             Chain::SplicedX => vec![adv::spki_spliced_resigned(&x.id().0, &z_seed, &names)],
             Chain::XSignedByZ => vec![adv::signed_by_other(&x.spec.key, &z_seed, &names)],
+            Chain::OwnWithXShapedName => vec![adv::key_shaped_name(&x.id().0, &z_seed, &names)],
             Chain::Ecdsa => vec![adv::ecdsa_self_signed(&names).0],
             Chain::ExpiredOwn => vec![adv::self_signed(&z_seed, &names, Validity::Expired)],
             Chain::MutatedX(p, val) => {
@@ -449,7 +456,7 @@ pub fn handshake_case(c: &HsCase, obs: &mut Obs) -> Result<(), Fail> {
         // the leaf certificate is its own valid one and it signs with its own key
         // (dialed without any certificate of its own, Z's listener falls back to its honest identity)
         let falls_back_to_own = matches!(c.chain, Chain::None) && matches!(c.role, Role::VDials { .. });
-        let legit = (matches!(c.chain, Chain::Own | Chain::OwnThenX) && matches!(c.sign, Sign::OwnKey)) || falls_back_to_own;
+        let legit = (matches!(c.chain, Chain::Own | Chain::OwnThenX | Chain::OwnWithXShapedName) && matches!(c.sign, Sign::OwnKey)) || falls_back_to_own;
 
         let (mut ev_rx, _snap) = v.net.subscribe().map_err(|e| Fail::Inconclusive(e.to_string()))?;
         if c.x_connected {
@@ -588,12 +595,12 @@ impl Part for Handshakes {
     type Case = HsCase;
     fn name(&self) -> &'static str { "handshake" }
     fn rule(&self) -> &'static str {
-        "victim V and honest X are real networks on the fabric, adversary Z is a raw quinn endpoint holding only its own key; Z captures X's certificate from a real handshake and then dials V or is dialed by V (connect / connect_with_peer_id(X) / connect_with_peer_id(Z)), presenting one of {own, X replayed, [own,X], [X,own], X's key spliced+re-signed, X's key issued by Z, ECDSA, expired, X's cert with a byte changed, wrong network name, none} and signing the handshake with {own key, junk, a signature over another message, ECDSA key, a mislabelled scheme}; X optionally honestly connected, Z optionally already connected under its own identity; oracle: every identity V lists, announces, returns from connect, shows to handlers or attaches to responses is Z's own (only when Z legitimately proved it) or the honestly connected X; a request for X never reaches Z; a pinned dial for X never succeeds; non-trivial = anything but (own certificate, own key); distinct by case"
+        "victim V and honest X are real networks on the fabric, adversary Z is a raw quinn endpoint holding only its own key; Z captures X's certificate from a real handshake and then dials V or is dialed by V (connect / connect_with_peer_id(X) / connect_with_peer_id(Z)), presenting one of {own, X replayed, [own,X], [X,own], X's key spliced+re-signed, X's key issued by Z, own certificate with X's key encoded inside its common name, ECDSA, expired, X's cert with a byte changed, wrong network name, none} and signing the handshake with {own key, junk, a signature over another message, ECDSA key, a mislabelled scheme}; X optionally honestly connected, Z optionally already connected under its own identity; oracle: every identity V lists, announces, returns from connect, shows to handlers or attaches to responses is Z's own (only when Z legitimately proved it) or the honestly connected X; a request for X never reaches Z; a pinned dial for X never succeeds; non-trivial = anything but (own certificate, own key); distinct by case"
     }
     fn strategy(&self, _t: Tier) -> BoxedStrategy<HsCase> {
         let chain = prop_oneof![
             2 => Just(Chain::Own), 3 => Just(Chain::ReplayX), 3 => Just(Chain::OwnThenX), 2 => Just(Chain::XThenOwn), 2 => Just(Chain::SplicedX),
-            2 => Just(Chain::XSignedByZ), 1 => Just(Chain::Ecdsa), 1 => Just(Chain::ExpiredOwn), 2 => (any::<u16>(), any::<u8>()).prop_map(|(p, v)| Chain::MutatedX(p, v)),
+            2 => Just(Chain::XSignedByZ), 2 => Just(Chain::OwnWithXShapedName), 1 => Just(Chain::Ecdsa), 1 => Just(Chain::ExpiredOwn), 2 => (any::<u16>(), any::<u8>()).prop_map(|(p, v)| Chain::MutatedX(p, v)),
             1 => Just(Chain::OwnWrongName), 1 => Just(Chain::None),
         ];
         let sign = prop_oneof![5 => Just(Sign::OwnKey), 1 => Just(Sign::Junk), 1 => Just(Sign::OtherMessage), 1 => Just(Sign::Ecdsa), 1 => Just(Sign::Mislabelled)];
